@@ -177,13 +177,26 @@ func phItemPrograms(maxActions int) []string {
 	return append(progs, "P", "Sa|P")
 }
 
+// phExecutor builds the executor under test; withMW registers a pass-through message middleware and a pass-through
+// batch-item middleware (the executor then takes the middleware code paths).
+func phExecutor(yield, withMW bool) *kmipserver.BatchExecutor {
+	exec := kmipserver.NewBatchExecutor()
+	exec.Route(kmip.OperationActivate, kmipserver.HandleFunc(phHandler(yield)))
+	if withMW {
+		exec.Use(func(next kmipserver.Next, ctx context.Context, msg *kmip.RequestMessage) (*kmip.ResponseMessage, error) { return next(ctx, msg) })
+		exec.BatchItemUse(func(next kmipserver.BatchItemNext, ctx context.Context, bi *kmip.RequestBatchItem) (*kmip.ResponseBatchItem, error) {
+			return next(ctx, bi)
+		})
+	}
+	return exec
+}
+
 // phSeqExhaustive: every batch of <=maxItems items over the item programs, options Continue/Stop, followed by a
 // probe request [R] with the same parent context (same "connection"), all through BatchExecutor.HandleRequest.
-func phSeqExhaustive(maxItems, maxActions int) func() {
+func phSeqExhaustive(maxItems, maxActions int, withMW ...bool) func() {
 	return func() {
 		resetPackages()
-		exec := kmipserver.NewBatchExecutor()
-		exec.Route(kmip.OperationActivate, kmipserver.HandleFunc(phHandler(false)))
+		exec := phExecutor(false, len(withMW) > 0 && withMW[0])
 		progs := phItemPrograms(maxActions)
 		parent := context.WithValue(context.Background(), shutConnKey{}, "conn")
 		n := 0
@@ -247,10 +260,18 @@ func phPrelude(exec *kmipserver.BatchExecutor, parent context.Context, kind stri
 func phConcurrent(batches [][]string, prelude ...string) func() {
 	return func() {
 		resetPackages()
-		exec := kmipserver.NewBatchExecutor()
-		exec.Route(kmip.OperationActivate, kmipserver.HandleFunc(phHandler(true)))
-		parent := context.WithValue(context.Background(), shutConnKey{}, "conn")
+		mw := false
+		var pre []string
 		for _, p := range prelude {
+			if p == "+mw" {
+				mw = true
+			} else {
+				pre = append(pre, p)
+			}
+		}
+		exec := phExecutor(true, mw)
+		parent := context.WithValue(context.Background(), shutConnKey{}, "conn")
+		for _, p := range pre {
 			phPrelude(exec, parent, p)
 		}
 		done := make([]*mc.Var[bool], len(batches))
@@ -327,13 +348,19 @@ func phServer(conns [][][]string) func() {
 
 func init() {
 	register("ph-seq-exhaustive-q", func() *Scenario {
-		return &Scenario{Name: "ph-seq-exhaustive-q", Doc: "all batches of <=2 items x <=2 actions (+panic items), Continue/Stop, each followed by a probe request on the same connection context", Body: phSeqExhaustive(2, 2)}
+		return &Scenario{Name: "ph-seq-exhaustive-q", Doc: "all batches of <=2 items x <=2 actions (+panic items), Continue/Stop, each followed by a probe request on the same connection context", Body: phSeqExhaustive(2, 2), MaxSteps: 200000000}
 	})
 	register("ph-seq-exhaustive-t", func() *Scenario {
-		return &Scenario{Name: "ph-seq-exhaustive-t", Doc: "all batches of <=3 items x <=2 actions (+panic items), Continue/Stop, each followed by a probe request", Body: phSeqExhaustive(3, 2)}
+		return &Scenario{Name: "ph-seq-exhaustive-t", Doc: "all batches of <=3 items x <=2 actions (+panic items), Continue/Stop, each followed by a probe request", Body: phSeqExhaustive(3, 2), MaxSteps: 200000000}
+	})
+	register("ph-seq-exhaustive-mw", func() *Scenario {
+		return &Scenario{Name: "ph-seq-exhaustive-mw", Doc: "as ph-seq-exhaustive-t on an executor with a pass-through message middleware and batch-item middleware", Body: phSeqExhaustive(3, 2, true), MaxSteps: 200000000}
+	})
+	register("ph-conc-2-mw", func() *Scenario {
+		return &Scenario{Name: "ph-conc-2-mw", Doc: "two concurrent requests on an executor with pass-through middlewares, after one plain request", Body: phConcurrent([][]string{{"Sa", "R|G"}, {"R", "Sb|R"}}, "+mw", "ok")}
 	})
 	register("ph-seq-exhaustive-x", func() *Scenario {
-		return &Scenario{Name: "ph-seq-exhaustive-x", Doc: "all batches of <=4 items x <=2 actions (+panic items), Continue/Stop, each followed by a probe request", Body: phSeqExhaustive(4, 2)}
+		return &Scenario{Name: "ph-seq-exhaustive-x", Doc: "all batches of <=4 items x <=2 actions (+panic items), Continue/Stop, each followed by a probe request", Body: phSeqExhaustive(4, 2), MaxSteps: 200000000}
 	})
 	conc := func(name, doc string, b [][]string) {
 		register(name, func() *Scenario { return &Scenario{Name: name, Doc: doc, Body: phConcurrent(b)} })
